@@ -127,20 +127,27 @@ func (cx *Ctx) keyLayouts() []keyLayout {
 // expandKeyCalls replaces calls to other key constructors of the module by their
 // own composition (GetFeedValueKey = GetFeedValuePrefixKey(name) ++ counter).
 func (ts *Terms) expandKeyCalls(t *Term, depth int) *Term {
+	return ts.expandKeyCallsF(t, depth, false)
+}
+
+// expandKeyCallsF: with ctorsOnly, only functions named like key constructors are opened
+// (an id derivation such as GetID(sender, …) stays the opaque value it is for the rules).
+func (ts *Terms) expandKeyCallsF(t *Term, depth int, ctorsOnly bool) *Term {
 	if t == nil || depth > 6 {
 		return t
 	}
 	if t.Op == "call" && t.src != nil {
-		if f := t.src.Common().StaticCallee(); f != nil && f.Blocks != nil && isIrismodFunc(f) && strings.Contains(funcPkgPath(f), "/types") {
+		if f := t.src.Common().StaticCallee(); f != nil && f.Blocks != nil && isIrismodFunc(f) && strings.Contains(funcPkgPath(f), "/types") &&
+			(!ctorsOnly || strings.Contains(f.Name(), "Key") || strings.Contains(f.Name(), "Subspace") || strings.Contains(f.Name(), "Prefix")) {
 			if in := ts.Inlined(t.src, t.fr, 0, 14); in != nil {
-				return ts.expandKeyCalls(in, depth+1)
+				return ts.expandKeyCallsF(in, depth+1, ctorsOnly)
 			}
 		}
 	}
 	nt := *t
 	nt.Args = nil
 	for _, a := range t.Args {
-		nt.Args = append(nt.Args, ts.expandKeyCalls(a, depth+1))
+		nt.Args = append(nt.Args, ts.expandKeyCallsF(a, depth+1, ctorsOnly))
 	}
 	return &nt
 }
